@@ -32,6 +32,7 @@ func C32Tables() []*Spec {
 	}
 	add(&Spec{Name: "accept-all", Sets: []SetSpec{all(Accept)}})
 	add(&Spec{Name: "reject-all", Sets: []SetSpec{{Password: Reject(), PublicKey: RejectBanner(), Kbd: Reject()}}})
+	add(&Spec{Name: "banner-only-rejects", Sets: []SetSpec{all(RejectBannerOnly)}, NoClientAuth: true, None: RejectBannerOnly()})
 	add(&Spec{Name: "accept-nil-perms+banner-rejects", Sets: []SetSpec{{Password: AcceptNil(), PublicKey: AcceptNil(), Kbd: RejectBanner()}}})
 	// partial success chains: password -> {publickey} -> {kbd}; publickey -> {password, kbd->set1}; kbd -> {kbd, password rejects}
 	add(&Spec{Name: "partial-chains", Sets: []SetSpec{
